@@ -72,6 +72,12 @@ def has_union(t):
     return False
 
 
+class _L3(e1.E1Check):
+    """carrier for the tier-L3 half (ak.concatenate) run by the generic L3 runner of mc/e1.py"""
+    id = "C08"
+    l3_table = "C08"
+
+
 class C08(runner.Check):
     id = "C08"
     level = "model_checking"
@@ -88,11 +94,19 @@ class C08(runner.Check):
     def shards(self, tier):
         out = [(tier, "merge", i) for i in range(len(TYPES))]
         out += [(tier, "dtypes", 0), (tier, "astype", 0), (tier, "simplify", 0)]
+        import l3
+        out += [(tier, "l3", g) for g in range(len(l3.TABLES["C08"][1]))]
         return out
 
     def run_shard(self, shard):
         tier, part, i = shard
         st = Stats()
+        if part == "l3":
+            h = _L3()
+            h._no = 0
+            h._run_l3(st, tier, i)
+            pool.unmark()
+            return st.pack()
         getattr(self, "_" + part)(tier, i, st)
         pool.unmark()
         return st.pack()
@@ -345,6 +359,11 @@ class C08(runner.Check):
                 st.nontrivial += 1
 
     def replay(self, case):
+        if case.get("mode") == "l3":
+            return _L3()._replay_l3(case)
+        return self._replay(case)
+
+    def _replay(self, case):
         if case.get("part") == "merge":
             a, b = layouts.build(layouts.from_json(case["a"])), layouts.build(layouts.from_json(case["b"]))
             va, vb = layoutsem.to_list(layouts.from_json(case["a"])), layoutsem.to_list(layouts.from_json(case["b"]))
